@@ -349,10 +349,10 @@ def ground_truth(case, impl):
                 else:                # reset issued by learn()
                     cur_obs, start = rec[1], True
                 continue
-            _, tag, r, te, tr, action = rec
+            _, tag, r, te, tr, action = rec[:6]
             done = te or tr
             steps.append({"saw": cur_obs, "start": start, "tag": tag, "r": r, "term": te, "trunc": tr, "done": done, "action": action,
-                          "returned": tag})
+                          "returned": tag, "info": rec[6] if len(rec) > 6 else None})
             start, pending = done, done
             if not done:
                 cur_obs = tag
